@@ -84,6 +84,19 @@ func (p *tyParser) ty() types.Type {
 		t.Fields = []types.Type{types.I32, types.NewPointer(t)}
 		p.named[name] = t
 		return t
+	case 'N':
+		// N<hexname>(<type>): the type under a NAME of its own (`%name = type <type>`: an alias; for a struct literal an identified struct)
+		st := p.pos
+		for p.pos < len(p.s) && strings.IndexByte("0123456789abcdef-", p.s[p.pos]) >= 0 {
+			p.pos++
+		}
+		name := string(unhexArg(p.s[st:p.pos]))
+		p.expect('(')
+		t := p.ty()
+		p.expect(')')
+		typeAliases[name] = t.LLString()
+		t.SetName(name)
+		return t
 	case 'p':
 		as := p.digits()
 		p.expect('(')
@@ -138,6 +151,9 @@ func (p *tyParser) tys() []types.Type {
 		return ts
 	}
 }
+
+// alias definitions met by the descriptor parser since the last reset (name -> the type's text): the typing ops render them as type definitions
+var typeAliases = map[string]string{}
 
 func parseTyIn(named map[string]*types.StructType, s string) types.Type {
 	p := &tyParser{s: s, named: named}
